@@ -63,6 +63,11 @@ def run(prop, tier, seed, replay):
                 nc = parts["dd"]
                 parts["dd"] = G.make_nc(nc.binning, -nc.counts.counts, nc.sum_weights.sum_weights1,
                                         nc.sum_weights.sum_weights2, nc.auto)
+            if ci % 5 == 1:       # very large counts (deep surveys: > 2^32 pairs per patch pair; weighted: not whole numbers)
+                nc = parts["dd"]
+                big = nc.counts.counts * float(2 ** 33) + (0.5 if ci % 2 else 0.0) * (nc.counts.counts > 0)
+                parts["dd"] = G.make_nc(nc.binning, big, nc.sum_weights.sum_weights1, nc.sum_weights.sum_weights2, nc.auto)
+                ck.count("hdf:counts-above-2^32")
             if ci % 4 == 2 and case["auto"] and case["N"] >= 2:
                 # autocorrelation containers whose patches were re-labelled through the public indexer (reversed order):
                 # counts sit BELOW the diagonal; they are pair counts like any other
